@@ -1142,9 +1142,34 @@ fn boundary_value(pr: &mut Prng, p: &BigUint) -> BigUint {
     }
 }
 
+/// up to 512-bit values built limb by limb from {0, 1, 2^63, 2^64-1, random}: the
+/// limb-boundary class for the 33..64-byte conversion paths (long division, U512 carries)
+pub fn limb_sparse(pr: &mut Prng, limbs: usize) -> BigUint {
+    let mut v = BigUint::zero();
+    for _ in 0..limbs {
+        let l = match pr.below(8) {
+            0 | 1 | 2 => 0u64,
+            3 => 1,
+            4 => u64::MAX,
+            5 => 1 << 63,
+            6 => u64::MAX - 1,
+            _ => pr.next_u64(),
+        };
+        v = (v << 64) + BigUint::from(l);
+    }
+    v
+}
+
 fn gen_bytes(pr: &mut Prng, p: &BigUint, len: usize) -> Vec<u8> {
     let two512 = BigUint::one() << 512;
-    let v: BigUint = match pr.below(12) {
+    let v: BigUint = match pr.below(15) {
+        12 | 13 => limb_sparse(pr, (len + 7) / 8),
+        14 => {
+            // a power of two anywhere in the 512-bit range, +- a small amount
+            let e = pr.below(512) as u32;
+            let d = pr.below(3);
+            if pr.chance(1, 2) { (BigUint::one() << e) + d } else { (BigUint::one() << e) - d.min(1) }
+        }
         0 => BigUint::zero(),
         1 => return vec![0xFF; len],
         2 | 3 | 4 => boundary_value(pr, p),
@@ -1246,7 +1271,13 @@ fn gen_rng_mode(pr: &mut Prng) -> RngMode {
                 6 => &two512 - 1u32,
                 7 => (BigUint::one() << 256) - 1u32,
                 8 => BigUint::one() << 256,
-                _ => (p * from_be(&pr.bytes(31))) + pr.below(2),
+                _ => {
+                    if pr.chance(1, 2) {
+                        limb_sparse(pr, 8)
+                    } else {
+                        (p * from_be(&pr.bytes(31))) + pr.below(2)
+                    }
+                }
             };
             RngMode::Words(words_of(&(v % &two512)))
         }
@@ -1356,7 +1387,32 @@ pub fn generate(seed: u64) -> FldSpec {
                 }
             }
             7 => ops.push(FOp::Sqrt { dst, a }),
-            8 => match pr.below(10) {
+            8 => match pr.below(12) {
+                10 | 11 => {
+                    // aimed at the lazy-reduction multiplier: both operands get components whose
+                    // stored Montgomery limbs lie just below q (or at other limb patterns), so the
+                    // interleaved sum of products accumulates its maximal carries
+                    let mut near = |pr: &mut Prng| -> Vec<u8> {
+                        let l = match pr.below(6) {
+                            0 => limb_patterns(pr, q),
+                            1 => q - 1u32 - pr.below(4),
+                            _ => q - 1u32 - (from_be(&pr.bytes(31)) >> (pr.below(24) as u32)),
+                        };
+                        aimed_bytes(&l, q)
+                    };
+                    let regs: Vec<usize> = (0..4).map(|i| (a + i) % n).collect();
+                    for &rg in regs.iter() {
+                        ops.push(FOp::FromSlice { k: Fk::Fq, dst: rg, bytes: hex(&near(&mut pr)), via_try: false });
+                    }
+                    let (d0, d1) = (dst, (dst + 1) % n);
+                    ops.push(FOp::Q2New { dst: d0, a: regs[0], b: regs[1] });
+                    ops.push(FOp::Q2New { dst: d1, a: regs[2], b: regs[3] });
+                    let form = *pr.pick(&FORMS);
+                    ops.push(FOp::Q2Bin { o: BinOp::Mul, form, dst: b, a: d0, b: d1 });
+                    if pr.chance(1, 2) {
+                        ops.push(FOp::Q2Bin { o: BinOp::Mul, form, dst: b, a: d0, b: d0 });
+                    }
+                }
                 0 => ops.push(FOp::Q2New { dst, a, b }),
                 1 => ops.push(FOp::Q2Const { dst, one: pr.chance(1, 2) }),
                 2 => {
